@@ -51,8 +51,8 @@ class RTCRtpCodecParameters:
 
     def __str__(self) -> str:
         s = f"{self.name}/{self.clockRate}"
-        if self.channels == 2:
-            s += "/2"
+        if self.channels is not None and self.channels > 1:
+            s += f"/{self.channels}"
         return s
 
 
